@@ -1,22 +1,38 @@
 """C06 Ragged writes: two-representation typestate (A11), pure operators,
-copy on construction."""
+copy on construction.
+
+The recognisers work on ROLES, not on the pinned spelling:
+  * the receiver is the first parameter of the method (`self`);
+  * a store event is a store whose target is rooted - through subscripts,
+    views and local aliases (`row = self._array[i]; row[j] = v`) - in an
+    attribute of the receiver;
+  * the re-synchronising statements (`self._array = np.array(partition_list(
+    self._data, self.lengths), ...)`, `self.__init__(self._array)`) and the
+    operands of the re-wrapping constructor calls are compared after the
+    expansion of temporaries (`vexpand`), so naming or un-naming a
+    sub-expression changes nothing;
+  * every content comparison is three-valued: accepted form -> ok; a
+    different pure function of the same operands -> VIOLATION; anything the
+    rule cannot see through -> ANALYSIS-INCOMPLETE."""
 import ast
 
-from ..cfg import CFG, ENTRY, EXIT, Assume, header_exprs
-from ..core import (AnalysisIncomplete, call_name, const_value, kwarg,
-                    names_loaded, params, param_default, target_names, u,
-                    walk_expr, walk_local)
-from ..patterns import (assigns_to, calls_in, check_no_arg_mutation, finfo,
-                        returns_of, shared)
+from ..cfg import ENTRY, EXIT, Assume, header_exprs
+from ..core import (AnalysisIncomplete, arg_or_kw, call_name, const_value,
+                    kwarg, params, param_default, target_names, u, walk_expr,
+                    walk_local)
+from ..match import canon, classify, match
+from ..patterns import assigns_to, finfo, returns_of, shared
 
 RA = 'enspara/ra/ra.py'
 CLS = 'RaggedArray'
+WRITERS = {'__init__', '__setitem__', 'append'}
 
 EXPLANATION = (
     'Typestate analysis of the RaggedArray class on every path of every '
     'method: abstract state = subset of {DATA-AHEAD, ARRAY-AHEAD, '
     'LENGTHS-AHEAD}.  Events: stores into / rebinding of self._data, '
-    'self._array, self.lengths; self.__init__(self._array) (rebuild from rows: '
+    'self._array, self.lengths (also through local aliases and views); '
+    'self.__init__(self._array) (rebuild from rows: '
     'legal only when _data is not ahead); self._array = np.array('
     'partition_list(self._data, self.lengths), ...) (rebuild from flat data: '
     'legal only when _array is not ahead, clears DATA/LENGTHS-AHEAD); '
@@ -27,89 +43,439 @@ EXPLANATION = (
     'freshly computed flat data with the same lengths; (D3) with copy=True '
     'every definition of self._data in the constructor is copy-making with '
     'the copy flag flowing unmodified (default True) and self.lengths is '
-    'always a fresh array.  Agreement with the list-of-rows model over whole '
-    'operation histories is not decided (the rows-of-object vs reshaped-view '
-    'representation depends on run-time lengths).')
+    'always a fresh array.  Statements are recognised by role after expansion '
+    'of temporaries; an unrecognised re-synchronisation is reported as '
+    'analysis-incomplete, not as a violation.  Agreement with the list-of-rows '
+    'model over whole operation histories is not decided (the rows-of-object '
+    'vs reshaped-view representation depends on run-time lengths).')
 
 DATA, ARRAY, LENS = 'DATA-AHEAD', 'ARRAY-AHEAD', 'LENGTHS-AHEAD'
+FLAG = {'_data': DATA, '_array': ARRAY, 'lengths': LENS}
+
+# expressions that denote (a view of / an element of) their operand
+VIEW_ATTRS = {'T', 'real', 'imag', 'flat'}
+VIEW_METHODS = {'reshape', 'view', 'ravel', 'transpose', 'squeeze', 'swapaxes'}
+MUT_METHODS = {'fill', 'sort', 'resize', 'put', 'itemset', 'partition', 'append', 'extend', 'insert', 'pop',
+               'remove', 'clear', 'reverse', 'setfield', 'byteswap'}
+NP_INPLACE = {'np.copyto', 'np.put', 'np.place', 'np.putmask', 'np.fill_diagonal', 'np.put_along_axis'}
 
 
-def classify_event(stmt):
-    """Return list of events for a statement header."""
-    ev = []
-    tgts = []
-    if isinstance(stmt, ast.Assign):
-        tgts = stmt.targets
-    elif isinstance(stmt, (ast.AugAssign, ast.AnnAssign)):
-        tgts = [stmt.target]
-    for t in tgts:
-        for tt in (t.elts if isinstance(t, (ast.Tuple, ast.List)) else [t]):
-            txt = u(tt)
-            if isinstance(tt, ast.Attribute) and u(tt.value) == 'self':
-                if tt.attr == '_data':
-                    ev.append(('rebind', '_data', stmt))
-                elif tt.attr == '_array':
-                    ev.append(('rebind', '_array', stmt))
-                elif tt.attr == 'lengths':
-                    ev.append(('rebind', 'lengths', stmt))
-                else:
-                    # any other attribute of the object is extra (cached/
-                    # derived) state that the writers do not maintain
-                    ev.append(('rebind', 'other:' + tt.attr, stmt))
-            elif isinstance(tt, ast.Subscript):
-                base = tt.value
-                while isinstance(base, ast.Subscript):
-                    base = base.value
-                b = u(base)
-                if b == 'self._data':
-                    ev.append(('store', '_data', stmt))
-                elif b == 'self._array':
-                    ev.append(('store', '_array', stmt))
-                elif b == 'self.lengths':
-                    ev.append(('store', 'lengths', stmt))
-    for e in header_exprs(stmt):
-        for c in walk_expr(e):
-            if isinstance(c, ast.Call):
-                f = u(c.func)
-                if f == 'self.__init__':
-                    ev.append(('reinit', u(c), stmt))
-                elif f == 'self.__setitem__':
-                    ev.append(('recurse', u(c), stmt))
-                elif f == 'self.append':
-                    ev.append(('recurse', u(c), stmt))
-                elif isinstance(c.func, ast.Attribute) and u(c.func.value) in ('self._data', 'self._array', 'self.lengths') \
-                        and c.func.attr in ('fill', 'sort', 'resize', 'put', 'itemset', 'partition', 'append', 'extend'):
-                    ev.append(('store', u(c.func.value).split('.')[1], stmt))
+# ---------------------------------------------------------------------------
+# per-method context: receiver, def-use, value expansion, alias roots, events
+
+class Ctx:
+    """One method: FuncInfo + the name of the receiver (first parameter)."""
+
+    def __init__(self, mod, fn, helper_writers=()):
+        self.mod, self.fn = mod, fn
+        self.fi = finfo(mod, fn)
+        ps = params(fn)
+        self.params = ps
+        self.me = ps[0] if ps else 'self'
+        self.helper_writers = set(helper_writers)
+        self._ev = {}
+        self._stmts = {}
+
+    # -- receiver attributes
+    def attr_of_me(self, e):
+        if isinstance(e, ast.Attribute) and isinstance(e.value, ast.Name) and e.value.id == self.me:
+            return e.attr
+        return None
+
+    def is_me_attr(self, e, attr):
+        return self.attr_of_me(e) == attr
+
+    # -- alias roots
+    def roots(self, e, at, depth=6):
+        """Attributes X of the receiver such that expression `e`, evaluated at
+        statement `at`, may denote the object self.X, a view of it or one of
+        its elements (a may-alias set over local aliases and view-making
+        expressions)."""
+        while True:
+            a = self.attr_of_me(e)
+            if a is not None:
+                return {a}
+            if isinstance(e, (ast.Subscript, ast.Starred)):
+                e = e.value
+            elif isinstance(e, ast.Attribute) and e.attr in VIEW_ATTRS:
+                e = e.value
+            elif isinstance(e, ast.Call) and isinstance(e.func, ast.Attribute) and e.func.attr in VIEW_METHODS:
+                e = e.func.value
+            else:
+                break
+        out = set()
+        if isinstance(e, ast.IfExp):
+            return self.roots(e.body, at, depth) | self.roots(e.orelse, at, depth)
+        if isinstance(e, ast.Name) and e.id != self.me and depth > 0:
+            for site in self.fi.rd.defs_at(at, e.id):
+                if site in ('PARAM', 'UNBOUND'):
+                    continue
+                if isinstance(site, (ast.For, ast.AsyncFor)):
+                    if e.id in target_names(site.target):
+                        out |= self.roots(site.iter, site, depth - 1)
+                    continue
+                v = self.fi.def_value(site, e.id)
+                if v is not None:
+                    out |= self.roots(v, site, depth - 1)
+        return out
+
+    # -- representation events of one statement header
+    def events(self, s):
+        if s in self._ev:
+            return self._ev[s]
+        self._ev[s] = ev = []
+        if s in (ENTRY, EXIT) or isinstance(s, Assume):
+            return ev
+        tgts = []
+        if isinstance(s, ast.Assign):
+            tgts = s.targets
+        elif isinstance(s, (ast.AugAssign, ast.AnnAssign)):
+            tgts = [s.target]
+        elif isinstance(s, ast.Delete):
+            tgts = s.targets
+        for t in tgts:
+            for tt in (t.elts if isinstance(t, (ast.Tuple, ast.List)) else [t]):
+                if isinstance(tt, ast.Starred):
+                    tt = tt.value
+                a = self.attr_of_me(tt)
+                if a is not None:
+                    # any attribute other than the three representations is
+                    # extra (cached/derived) state the writers do not maintain
+                    ev.append(('rebind', a if a in FLAG else 'other:' + a, s, None))
+                elif isinstance(tt, ast.Subscript) and isinstance(tt.value, ast.Name) and tt.value.id == self.me:
+                    ev.append(('recurse', u(tt), s, None))       # self[...] = v
+                elif isinstance(tt, (ast.Subscript, ast.Attribute)):
+                    for r in sorted(self.roots(tt.value, s)):
+                        ev.append(('store', r if r in FLAG else 'other:' + r, s, None))
+                elif isinstance(tt, ast.Name) and isinstance(s, ast.AugAssign):
+                    for r in sorted(self.roots(tt, s)):           # alias op= v works in place
+                        ev.append(('store', r if r in FLAG else 'other:' + r, s, None))
+        for e in header_exprs(s):
+            for c in walk_expr(e):
+                if not isinstance(c, ast.Call):
+                    continue
+                f = c.func
+                if isinstance(f, ast.Attribute):
+                    recv_me = isinstance(f.value, ast.Name) and f.value.id == self.me
+                    if f.attr == '__init__' and recv_me:
+                        ev.append(('reinit', u(c), s, list(c.args)))
+                    elif f.attr == '__init__' and c.args and isinstance(c.args[0], ast.Name) and c.args[0].id == self.me:
+                        ev.append(('reinit', u(c), s, list(c.args[1:])))
+                    elif recv_me and f.attr in ('__setitem__', 'append'):
+                        ev.append(('recurse', u(c), s, None))
+                    elif recv_me and f.attr in self.helper_writers:
+                        ev.append(('opaque', f.attr, s, None))
+                    elif f.attr in MUT_METHODS:
+                        for r in sorted(self.roots(f.value, s)):
+                            ev.append(('store', r if r in FLAG else 'other:' + r, s, None))
+                elif isinstance(f, ast.Name) and f.id == 'setattr' and c.args and isinstance(c.args[0], ast.Name) \
+                        and c.args[0].id == self.me:
+                    a = const_value(c.args[1]) if len(c.args) > 1 else None
+                    ev.append(('rebind', a if a in FLAG else 'other:%s' % a, s, None))
+                if call_name(c) in NP_INPLACE and c.args:
+                    for r in sorted(self.roots(c.args[0], s)):
+                        ev.append(('store', r if r in FLAG else 'other:' + r, s, None))
                 for k in c.keywords:
-                    if k.arg == 'out' and u(k.value) in ('self._data', 'self._array', 'self.lengths'):
-                        ev.append(('store', u(k.value).split('.')[1], stmt))
-    return ev
+                    if k.arg == 'out':
+                        for r in sorted(self.roots(k.value, s)):
+                            ev.append(('store', r if r in FLAG else 'other:' + r, s, None))
+                ev += self._callee_stores(c, s)
+        return ev
+
+    def _callee_stores(self, c, s):
+        """A module-level helper that stores into a parameter which is bound
+        to (a view of) a representation of the receiver."""
+        f = c.func
+        if not (isinstance(f, ast.Name) and f.id in self.mod.functions):
+            return []
+        _, ea = shared(_REPO[0]) if _REPO else (None, None)
+        if ea is None:
+            return []
+        muts = ea.mutated_params(self.mod.rel, f.id)
+        if not muts:
+            return []
+        cps = params(self.mod.functions[f.id])
+        out = []
+        bound = list(zip(cps, c.args)) + [(k.arg, k.value) for k in c.keywords if k.arg]
+        for p, a in bound:
+            if p in muts and not harmless_self_copy(_REPO[0], self.mod.rel, f.id, p):
+                for r in sorted(self.roots(a, s)):
+                    out.append(('store', r if r in FLAG else 'other:' + r, s, None))
+        return out
+
+    def has_events(self):
+        return any(self.events(n) for n in self.fi.cfg.nodes)
+
+    # -- value expansion
+    def value_of(self, name_node, at):
+        """The expression whose value a Name use denotes: exactly one reaching
+        definition `t = <expr>`, the object bound to t is never mutated in
+        place, no operand of <expr> is rebound or mutated in place and no
+        representation event of the receiver happens between the definition
+        and the use.  Unlike FuncInfo.temp_value the defining expression may
+        call helpers (partition_list, a bound method obtained with getattr):
+        the expansion denotes the value computed AT the definition, which is
+        all a role recogniser needs."""
+        fi = self.fi
+        defs = fi.rd.defs_at(at, name_node.id)
+        if len(defs) != 1:
+            return None, None
+        site = next(iter(defs))
+        if site in ('PARAM', 'UNBOUND') or not isinstance(site, (ast.Assign, ast.AnnAssign)):
+            return None, None
+        v = fi.def_value(site, name_node.id)
+        if v is None:
+            return None, None
+        for n in ast.walk(v):
+            if isinstance(n, (ast.Yield, ast.YieldFrom, ast.Await, ast.NamedExpr, ast.Lambda, ast.GeneratorExp)):
+                return None, None
+        if fi._mutated_in_place(name_node.id):
+            return None, None
+
+        def between(m):
+            if m is site or m is at:
+                return False
+            return fi.cfg.reachable(site, m, avoiding=[at]) and fi.cfg.reachable(m, at, avoiding=[site])
+        reads_me = False
+        for m in walk_expr(v):
+            if not (isinstance(m, ast.Name) and isinstance(m.ctx, ast.Load)):
+                continue
+            if m.id == self.me:
+                reads_me = True
+            if fi.rd.defs_at(site, m.id) != fi.rd.defs_at(at, m.id):
+                return None, None
+            for ms in fi._mutated_in_place(m.id):
+                if between(ms):
+                    return None, None
+        if reads_me:
+            for n in fi.cfg.nodes:
+                if n in (ENTRY, EXIT) or isinstance(n, Assume):
+                    continue
+                if self.events(n) and between(n):
+                    return None, None
+        return v, site
+
+    def vexpand(self, expr, at=None, depth=8):
+        """Canonical copy of `expr` with every temporary replaced by its
+        defining expression (see value_of).  Copied Name nodes carry `_at`,
+        the statement at which the original name is evaluated."""
+        fi = self.fi
+        bound = set()
+        for x in ast.walk(expr):
+            if isinstance(x, ast.comprehension):
+                bound.update(target_names(x.target))
+
+        def ex(e, at, d, bound):
+            if isinstance(e, ast.Name):
+                if d > 0 and isinstance(e.ctx, ast.Load) and e.id not in bound and at is not None:
+                    v, site = self.value_of(e, at)
+                    if v is not None:
+                        b2 = set()
+                        for x in ast.walk(v):
+                            if isinstance(x, ast.comprehension):
+                                b2.update(target_names(x.target))
+                        return ex(v, site, d - 1, b2)
+                new = ast.copy_location(ast.Name(id=e.id, ctx=e.ctx), e)
+                if at is not None:
+                    # an int survives the deep copy made by match.canon
+                    new._at_id = id(at)
+                    self._stmts[id(at)] = at
+                return new
+            if not isinstance(e, ast.AST):
+                return e
+            if isinstance(e, (ast.expr_context, ast.operator, ast.unaryop, ast.boolop, ast.cmpop)):
+                return e
+            new = type(e)()
+            for f in e._fields:
+                val = getattr(e, f, None)
+                if isinstance(val, list):
+                    setattr(new, f, [ex(x, at, d, bound) for x in val])
+                elif isinstance(val, ast.AST):
+                    setattr(new, f, ex(val, at, d, bound))
+                else:
+                    setattr(new, f, val)
+            for a in ('lineno', 'col_offset', 'end_lineno', 'end_col_offset'):
+                if hasattr(e, a):
+                    setattr(new, a, getattr(e, a))
+            return new
+        if at is None:
+            at = fi.stmt(expr)
+        return canon(ex(expr, at, depth, bound))
+
+    def at_of(self, name_node):
+        """Statement at which an expanded Name is evaluated."""
+        return self._stmts.get(getattr(name_node, '_at_id', None))
+
+    def param_only(self, name_node):
+        """The (expanded) Name denotes the unmodified parameter of that name."""
+        if not isinstance(name_node, ast.Name) or name_node.id not in self.params:
+            return False
+        at = self.at_of(name_node)
+        if at is None:
+            return not assigns_to(self.fn, name_node.id)
+        return self.fi.rd.defs_at(at, name_node.id) == {'PARAM'}
 
 
-def is_rebuild_from_flat(stmt):
-    """self._array = np.array(partition_list(self._data, self.lengths), ...)
-    or a reshape of self._data."""
-    if not (isinstance(stmt, ast.Assign) and u(stmt.targets[0]) == 'self._array'):
-        return False
-    v = stmt.value
-    if isinstance(v, ast.Call) and call_name(v) == 'np.array' and v.args and isinstance(v.args[0], ast.Call) \
-            and (call_name(v.args[0]) or '').endswith('partition_list'):
-        a = v.args[0].args
-        return len(a) == 2 and u(a[0]) == 'self._data' and u(a[1]) in ('self.lengths', 'lengths')
-    if isinstance(v, ast.Call) and isinstance(v.func, ast.Attribute) and v.func.attr == 'reshape' and u(v.func.value) == 'self._data':
+_REPO = []
+
+
+def _mentions_attr(cx, e, attr):
+    return any(cx.is_me_attr(n, attr) for n in ast.walk(e))
+
+
+def _pure_over(e, names):
+    """A pure numpy/builtin function of the given names only."""
+    from ..match import _closed_over
+    return _closed_over(e, set(names))
+
+
+def _near_far(cx, e, extra=()):
+    """Three-valued fallback for an expression in a located role that is none
+    of the accepted forms: 'near' when it is a different pure function of the
+    receiver/parameters (decidably another computation), else 'far'."""
+    return 'near' if _pure_over(e, set(cx.params) | set(extra)) else 'far'
+
+
+# ---------------------------------------------------------------------------
+# harmless self-copy (exemption shared by D1 and D2)
+
+def _root_record(ea, rel, qual, p, depth=8):
+    """Follow 'callee-mutates' records down to the primitive store:
+    (rel, qual, param, record)."""
+    seen = set()
+    while depth > 0:
+        depth -= 1
+        why = ea.mutated_params(rel, qual).get(p)
+        if why is None:
+            return None
+        if why['kind'] != 'callee-mutates':
+            return rel, qual, p, why
+        via = why.get('via') or ''
+        try:
+            head, rest = via.split(' mutates ', 1)
+            rel2, qual2 = head.split('::', 1)
+            p2 = rest.split(' at ', 1)[0]
+        except ValueError:
+            return rel, qual, p, why
+        if (rel2, qual2, p2) in seen:
+            return None
+        seen.add((rel2, qual2, p2))
+        rel, qual, p = rel2, qual2, p2
+    return None
+
+
+_FRESH_CALLS = {'np.zeros', 'np.ones', 'np.full', 'np.empty', 'np.zeros_like', 'np.ones_like', 'np.full_like',
+                'np.array', 'np.copy', 'np.arange', 'np.minimum', 'np.maximum', 'np.where', 'np.concatenate',
+                'np.append', 'np.cumsum', 'np.repeat', 'np.clip'}
+
+
+def _fresh(e):
+    if isinstance(e, (ast.BinOp, ast.UnaryOp, ast.Compare, ast.Constant, ast.List, ast.ListComp)):
         return True
+    if isinstance(e, ast.Call):
+        if call_name(e) in _FRESH_CALLS:
+            return True
+        if isinstance(e.func, ast.Attribute) and e.func.attr == 'copy' and not e.args:
+            return True
     return False
 
 
-def typestate(ck, mod, qual, fn, is_ctor=False):
+def harmless_self_copy(repo, rel, qual, p):
+    """The only store through which `qual` may reach storage of parameter `p`
+    is `A[I] = p[I]` where every definition of A reaching the store is either
+    `A = p` (the very same object: the store writes p's own values back in
+    place, a no-op) or a freshly allocated array (no alias at all)."""
+    _, ea = shared(repo)
+    root = _root_record(ea, rel, qual, p)
+    if root is None:
+        return False
+    rel, qual, p, why = root
+    s = why.get('node')
+    mod = repo.mod(rel)
+    try:
+        fn = mod.func(qual)
+    except Exception:
+        return False
+    if not (isinstance(s, ast.Assign) and len(s.targets) == 1 and isinstance(s.targets[0], ast.Subscript)
+            and isinstance(s.value, ast.Subscript)):
+        return False
+    t, v = s.targets[0], s.value
+    if not (isinstance(t.value, ast.Name) and isinstance(v.value, ast.Name) and v.value.id == p):
+        return False
+    fi = finfo(mod, fn)
+    if fi.rd.defs_at(s, p) != {'PARAM'}:
+        return False
+    if fi.xu(t.slice, strict=False) != fi.xu(v.slice, strict=False):
+        return False
+    A = t.value.id
+    if A == p:
+        return True
+    for site in fi.rd.defs_at(s, A):
+        if site in ('PARAM', 'UNBOUND'):
+            return False
+        dv = fi.def_value(site, A)
+        if dv is None:
+            return False
+        if isinstance(dv, ast.Name) and dv.id == p and fi.rd.defs_at(site, p) == {'PARAM'}:
+            continue
+        if _fresh(dv):
+            continue
+        return False
+    # no other store into A or p in the function
+    others = [x for x in fi._mutated_in_place(A) + fi._mutated_in_place(p) if x is not s]
+    return not others
+
+
+# ---------------------------------------------------------------------------
+# D1 typestate
+
+def _lengths_operand(cx, e):
+    """self.lengths, or the unmodified constructor parameter `lengths`."""
+    if cx.is_me_attr(e, 'lengths'):
+        return True
+    return isinstance(e, ast.Name) and e.id == 'lengths' and cx.param_only(e)
+
+
+def rebuild_kind(cx, s):
+    """Classify `self._array = <E>`:
+      'flat'    E is the row view of the flat data: np.array(partition_list(
+                self._data, <lengths>), ...) or self._data.reshape(...);
+      'unknown' E is computed from self._data in a way the rule cannot see
+                through (helper call, loop-built list, ...);
+      None      an ordinary rebinding of the row view (also: a partition of
+                something else / with other lengths)."""
+    if not (isinstance(s, ast.Assign) and len(s.targets) == 1 and cx.is_me_attr(s.targets[0], '_array')):
+        return None
+    E = cx.vexpand(s.value, s)
+    if isinstance(E, ast.Call) and call_name(E) in ('np.array', 'np.asarray') and E.args and isinstance(E.args[0], ast.Call) \
+            and (call_name(E.args[0]) or '').split('.')[-1] == 'partition_list':
+        a = E.args[0]
+        flat = arg_or_kw(a, 0, 'list_to_partition')
+        lens = arg_or_kw(a, 1, 'partition_lengths')
+        if len(a.args) + len(a.keywords) == 2 and flat is not None and lens is not None \
+                and cx.is_me_attr(flat, '_data') and _lengths_operand(cx, lens):
+            return 'flat'
+        if flat is not None and lens is not None and _near_far(cx, ast.Tuple(elts=[flat, lens], ctx=ast.Load())) == 'near':
+            return None         # decidably a partition of something else
+        return 'unknown'
+    if isinstance(E, ast.Call) and isinstance(E.func, ast.Attribute) and E.func.attr == 'reshape' and cx.is_me_attr(E.func.value, '_data'):
+        return 'flat'
+    if _mentions_attr(cx, E, '_data') and _near_far(cx, E) == 'far':
+        return 'unknown'
+    return None
+
+
+def typestate(ck, mod, qual, fn, cx, is_ctor=False):
     rule = 'C06.D1.resync'
-    cfg = CFG(fn)
+    cfg = cx.fi.cfg
+    body_nodes = [n for n in cfg.nodes if n not in (ENTRY, EXIT) and not isinstance(n, Assume)]
+    kinds = {n: rebuild_kind(cx, n) for n in body_nodes}
     IN = {n: None for n in cfg.nodes}
     OUT = {n: None for n in cfg.nodes}
     OUT[ENTRY] = frozenset()
     work = [n for n in cfg.nodes if n != ENTRY]
-    illegal = []
-    events_seen = 0
+    illegal = {}
+    unknown = {}
     guard = 0
     while work and guard < 20000:
         guard += 1
@@ -122,46 +488,48 @@ def typestate(ck, mod, qual, fn, is_ctor=False):
             continue
         IN[n] = st
         new = set(st)
-        if n not in (ENTRY, EXIT) and not isinstance(n, Assume):
-            evs = classify_event(n)
-            if is_rebuild_from_flat(n):
-                if ARRAY in new:
-                    illegal.append((n, 'the row view is rebuilt from the flat data while a store into self._array '
-                                       'has not been folded back: that row store is lost'))
+        if n in kinds:
+            evs = cx.events(n)
+            if kinds[n] is not None:
+                if kinds[n] == 'unknown':
+                    unknown[n] = 'the row view is rebuilt from self._data in a form that is not recognised: %s' % u(n)[:140]
+                elif ARRAY in new:
+                    illegal[n] = ('the row view is rebuilt from the flat data while a store into self._array '
+                                  'has not been folded back: that row store is lost')
                 new.discard(DATA)
                 new.discard(LENS)
                 new.discard(ARRAY)
                 evs = [e for e in evs if not (e[0] == 'rebind' and e[1] == '_array')]
-            for kind, what, stmt in evs:
+            for kind, what, stmt, extra in evs:
                 if kind == 'reinit':
-                    arg = stmt.value.args[0] if isinstance(stmt, ast.Expr) and isinstance(stmt.value, ast.Call) and stmt.value.args else None
-                    if arg is not None and u(arg) == 'self._array':
-                        if DATA in new:
-                            illegal.append((n, 'the object is rebuilt from its rows (self.__init__(self._array)) while a '
-                                               'store into the flat data has not been propagated to the rows: it is lost'))
-                        new.clear()
-                    else:
-                        new.clear()
+                    arg = cx.vexpand(extra[0], n) if extra else None
+                    if arg is not None and cx.is_me_attr(arg, '_array') and DATA in new:
+                        illegal[n] = ('the object is rebuilt from its rows (self.__init__(self._array)) while a '
+                                      'store into the flat data has not been propagated to the rows: it is lost')
+                    new.clear()
                 elif kind == 'recurse':
                     new.clear()
+                elif kind == 'opaque':
+                    unknown[n] = ('call of the private writer helper %s.%s: its effect on the representations is not '
+                                  'summarised (no inter-procedural typestate)' % (CLS, what))
+                    new.clear()
                 elif kind in ('store', 'rebind'):
-                    if what == '_data':
-                        new.add(DATA)
-                    elif what == '_array':
-                        new.add(ARRAY)
-                    elif what == 'lengths':
-                        new.add(LENS)
+                    if what in FLAG:
+                        new.add(FLAG[what])
         new = frozenset(new)
         if new != OUT[n]:
             OUT[n] = new
             for s in cfg.succ.get(n, []):
                 if s not in work:
                     work.append(s)
-    n_events = sum(len(classify_event(n)) for n in cfg.nodes if n not in (ENTRY, EXIT) and not isinstance(n, Assume))
-    for n, why in illegal:
+    n_events = sum(len(cx.events(n)) for n in body_nodes)
+    for n, why in illegal.items():
         ck.bad(rule + '.order', mod, n, qual, u(n)[:160], why)
+    for n, why in unknown.items():
+        ck.missing(rule, '%s L%s: %s' % (qual, getattr(n, 'lineno', '?'), why))
     if not is_ctor:
         # CLEAN at every exit
+        ev_nodes = [m for m in body_nodes if cx.events(m)]
         for p in cfg.pred.get(EXIT, []):
             st = OUT.get(p)
             if st is None:
@@ -172,12 +540,9 @@ def typestate(ck, mod, qual, fn, is_ctor=False):
             if st:
                 # find the last event statement that set the flag, for the report
                 src = None
-                for m in cfg.nodes:
-                    if m in (ENTRY, EXIT) or isinstance(m, Assume):
-                        continue
-                    if classify_event(m) and cfg.reachable(m, p) or m is p:
-                        if classify_event(m):
-                            src = m
+                for m in ev_nodes:
+                    if m is p or cfg.reachable(m, p):
+                        src = m
                 ck.bad(rule, mod, src or p, qual, '%s ; exit: %s' % (u(src)[:100] if src is not None else '?', where),
                        'the method can exit in state %s: one representation (flat data / row view / lengths) was written '
                        'and the others were not re-synchronised on this path, so a later read through another path '
@@ -187,35 +552,198 @@ def typestate(ck, mod, qual, fn, is_ctor=False):
     return n_events
 
 
+def _is_private(name):
+    return name.startswith('_') and not (name.startswith('__') and name.endswith('__'))
+
+
 def d1_writers(ck, mod):
     cls = mod.classes.get(CLS)
     if cls is None:
         raise AnalysisIncomplete('class RaggedArray not found')
+    methods = [(q, fn) for q, fn in mod.functions.items() if q.startswith(CLS + '.') and '<locals>' not in q]
+    # private helper methods that contain events: calls to them are opaque
+    helper = set()
+    while True:
+        found = set()
+        for q, fn in methods:
+            name = q.split('.', 1)[1]
+            if _is_private(name) and Ctx(mod, fn, helper).has_events():
+                found.add(name)
+        if found <= helper:
+            break
+        helper |= found
     writers = []
     pure = []
-    for q, fn in mod.functions.items():
-        if not q.startswith(CLS + '.') or '<locals>' in q:
-            continue
+    ctxs = {}
+    for q, fn in methods:
         ck.analysed(mod, fn)
-        evs = []
-        for s in walk_local(fn):
-            if isinstance(s, ast.stmt):
-                evs += classify_event(s)
-        if evs:
+        ctxs[q] = cx = Ctx(mod, fn, helper)
+        if cx.has_events():
             writers.append((q, fn))
         else:
             pure.append((q, fn))
     names = sorted(q.split('.', 1)[1] for q, _ in writers)
-    ck.check(set(names) == {'__init__', '__setitem__', 'append'}, 'C06.D1.writers', mod, cls, CLS,
+    extra = sorted(set(names) - WRITERS)
+    public_extra = [n for n in extra if not _is_private(n)]
+    ck.check(not public_extra and WRITERS <= set(names), 'C06.D1.writers', mod, cls, CLS,
              'methods containing a representation event: %s' % names,
              'the writers are exactly __init__, __setitem__ and append',
              'a method outside {__init__, __setitem__, append} writes a representation: %s' % (
-                 sorted(set(names) - {'__init__', '__setitem__', 'append'})))
+                 public_extra or sorted(WRITERS - set(names))))
+    for n in extra:
+        if _is_private(n):
+            ck.missing('C06.D1.writers', 'private helper method %s.%s writes a representation: the typestate of its '
+                       'callers would need its summary (inter-procedural analysis not implemented)' % (CLS, n))
     total = 0
     for q, fn in writers:
-        total += typestate(ck, mod, q, fn, is_ctor=q.endswith('__init__'))
+        name = q.split('.', 1)[1]
+        if _is_private(name):
+            continue
+        total += typestate(ck, mod, q, fn, ctxs[q], is_ctor=q.endswith('__init__'))
     ck.floor('C06.D1.resync', total, 12, 'representation events')
     return writers, pure
+
+
+# ---------------------------------------------------------------------------
+# D2 pure operators
+
+def _ctor_call(cx, E):
+    """E constructs a new object of the class: RaggedArray(...), ra.RaggedArray(...),
+    type(self)(...), self.__class__(...)."""
+    if not isinstance(E, ast.Call):
+        return False
+    if (call_name(E) or '').split('.')[-1] == CLS:
+        return True
+    return match('type(%s)' % cx.me, E.func) is not None or match('%s.__class__' % cx.me, E.func) is not None
+
+
+def _known_not_implemented(cx, ret):
+    """`return X` where X is NotImplemented, or a name known to be
+    NotImplemented on every path to the return."""
+    v = ret.value
+    if isinstance(v, ast.Name) and v.id == 'NotImplemented':
+        return True
+    if not isinstance(v, ast.Name):
+        return False
+    for n in cx.fi.cfg.nodes:
+        if isinstance(n, Assume) and cx.fi.cfg.dominates(n, ret):
+            t = n.test
+            if isinstance(t, ast.Compare) and len(t.ops) == 1 and isinstance(t.left, ast.Name) and t.left.id == v.id \
+                    and u(t.comparators[0]) == 'NotImplemented':
+                if (isinstance(t.ops[0], ast.Is) and n.polarity) or (isinstance(t.ops[0], ast.IsNot) and not n.polarity):
+                    if cx.fi.rd.defs_at(n.owner, v.id) == cx.fi.rd.defs_at(ret, v.id):
+                        return True
+    return False
+
+
+def _wrap_return(ck, rule, mod, q, cx):
+    """The single `return <Class>(<array>, <lengths>, ...)` of a re-wrapping
+    method: (return stmt, expanded call) or None (reported)."""
+    rets = [r for r in returns_of(cx.fn) if r.value is not None]
+    wraps = []
+    for r in rets:
+        E = cx.vexpand(r.value, r)
+        if _ctor_call(cx, E):
+            wraps.append((r, E))
+        elif _known_not_implemented(cx, r):
+            continue
+        elif isinstance(E, ast.Name) and E.id == cx.me:
+            ck.bad(rule, mod, r, q, u(r), 'the operator returns its own operand: operators must return NEW objects')
+            return None
+        else:
+            ck.missing(rule, '%s: return value not recognised as a new %s: %s' % (q, CLS, u(r)[:120]))
+            return None
+    if len(wraps) != 1:
+        ck.missing(rule, '%s: expected exactly one `return %s(<new flat data>, lengths=self.lengths)`, found %d' % (q, CLS, len(wraps)))
+        return None
+    return wraps[0]
+
+
+def _check_same_lengths(ck, rule, mod, q, cx, r, E, what):
+    lens = arg_or_kw(E, 1, 'lengths')
+    if lens is not None and cx.is_me_attr(lens, 'lengths'):
+        ck.ok(rule, mod, r, '%s: lengths=%s' % (q, u(lens)), 'new object with the same row lengths')
+        return True
+    v = 'near' if lens is None else _near_far(cx, lens)
+    ck.decide(v, rule, mod, r, q, u(r), '', '%s must wrap the new flat data with self.lengths (found lengths=%s)' % (what, u(lens)))
+    return False
+
+
+def d2_map_operator(ck, mod, rule):
+    q = CLS + '.map_operator'
+    fn = mod.func(q)
+    cx = Ctx(mod, fn)
+    if len(cx.params) < 3:
+        ck.missing(rule, '%s(self, operator, other): parameters not recognised' % q)
+        return
+    me, opn, oth = cx.params[:3]
+    w = _wrap_return(ck, rule, mod, q, cx)
+    if w is None:
+        return
+    r, E = w
+    arr = arg_or_kw(E, 0, 'array')
+    construct = '%s ; %s' % (u(arr), u(r))
+    bad_msg = 'map_operator must return RaggedArray(array=<new flat result>, lengths=self.lengths)'
+    if not (isinstance(arr, ast.Call) and isinstance(arr.func, ast.Call) and call_name(arr.func) == 'getattr'
+            and len(arr.func.args) == 2 and not arr.func.keywords and len(arr.args) == 1 and not arr.keywords):
+        v = 'far' if arr is not None else 'near'
+        if arr is not None and _near_far(cx, arr) == 'near':
+            v = 'near'
+        ck.decide(v, rule, mod, r, q, construct, '', bad_msg + ' with <new flat result> = getattr(self._data, operator)(other)')
+        return
+    X, Y = arr.func.args
+    O = arr.args[0]
+    okx = cx.is_me_attr(X, '_data')
+    oky = isinstance(Y, ast.Name) and Y.id == opn and cx.param_only(Y)
+    if okx and oky and _check_same_lengths(ck, rule, mod, q, cx, r, E, 'map_operator'):
+        ck.ok(rule, mod, r, construct, 'element-wise result on the flat data, re-wrapped with the same row lengths in a NEW object')
+    elif not (okx and oky):
+        bad = X if not okx else Y
+        ck.decide(_near_far(cx, bad), rule, mod, r, q, construct, '', bad_msg + ': the operator named by the `%s` parameter '
+                  'must be applied to self._data (found getattr(%s, %s))' % (opn, u(X), u(Y)))
+    # the right operand: the flat data of a ragged operand, the operand itself otherwise
+    flat_other = '%s._data' % oth
+    msg_ok = 'ragged operand contributes its flat data'
+    msg_bad = 'other must be replaced by other._data for ragged operands'
+    if isinstance(O, ast.Name) and O.id == oth:
+        at = cx.at_of(O) or r
+        defs = cx.fi.rd.defs_at(at, oth)
+        sites = [d for d in defs if d not in ('PARAM', 'UNBOUND')]
+        if 'PARAM' in defs and not sites:
+            ck.bad(rule, mod, r, q, u(O), msg_bad)
+        elif 'PARAM' in defs and len(sites) == 1 and isinstance(sites[0], ast.Assign):
+            dv = cx.fi.def_value(sites[0], oth)
+            dvx = cx.vexpand(dv, sites[0]) if dv is not None else None
+            if dvx is not None and u(dvx) == flat_other and cx.fi.rd.defs_at(sites[0], oth) == {'PARAM'}:
+                ck.ok(rule, mod, sites[0], u(sites[0]), msg_ok)
+            elif dvx is not None:
+                ck.decide(_near_far(cx, dvx), rule, mod, sites[0], q, u(sites[0]), '', msg_bad)
+            else:
+                ck.missing(rule, '%s: definition of the right operand not recognised: %s' % (q, u(sites[0])[:120]))
+        else:
+            ck.missing(rule, '%s: definitions of the right operand `%s` not recognised' % (q, oth))
+    elif isinstance(O, ast.IfExp) and ((u(O.body) == flat_other and u(O.orelse) == oth) or (u(O.orelse) == flat_other and u(O.body) == oth)):
+        ck.ok(rule, mod, r, u(O), msg_ok)
+    else:
+        ck.decide(_near_far(cx, O), rule, mod, r, q, u(O), '', msg_bad)
+
+
+def d2_invert(ck, mod, rule):
+    q = CLS + '.__invert__'
+    cx = Ctx(mod, mod.func(q))
+    w = _wrap_return(ck, rule, mod, q, cx)
+    if w is None:
+        return
+    r, E = w
+    arr = arg_or_kw(E, 0, 'array')
+    me = cx.me
+    forms = ['%s._data.__invert__()' % me, '~%s._data' % me, 'np.invert(%s._data)' % me, 'np.bitwise_not(%s._data)' % me]
+    if arr is not None and any(match(f, arr) is not None for f in forms):
+        if _check_same_lengths(ck, rule, mod, q, cx, r, E, '__invert__'):
+            ck.ok(rule, mod, r, u(r), 'new object with the same lengths')
+    else:
+        v = 'near' if arr is None else _near_far(cx, arr)
+        ck.decide(v, rule, mod, r, q, u(r), '', '__invert__ must wrap the inverted flat data (~self._data) with self.lengths')
 
 
 def d2_pure(ck, mod, pure):
@@ -228,8 +756,7 @@ def d2_pure(ck, mod, pure):
         muts = ea.mutated_params(rel, q)
         for p in params(fn):
             n += 1
-            if p in muts and not (q.endswith('__getitem__') and p == 'self' and
-                                  'stops[iis_to_flat] = lengths[iis_to_flat]' in (muts[p].get('via') or '') + muts[p].get('construct', '')):
+            if p in muts and not harmless_self_copy(ck.repo, rel, q, p):
                 why = muts[p]
                 ck.bad(rule, mod, why['node'], q, 'parameter %s <- %s' % (p, why['construct'][:120]),
                        'a read-only method (operator/reduction/property) stores into storage of `%s`: operators must '
@@ -238,94 +765,119 @@ def d2_pure(ck, mod, pure):
             else:
                 ck.ok(rule, mod, fn, '%s(%s)' % (q, p), 'no store may alias %s' % p)
     # map_operator rewraps fresh data with the same lengths
-    mo = mod.func(CLS + '.map_operator')
-    r = [x for x in returns_of(mo) if isinstance(x.value, ast.Call)]
-    ok = len(r) == 1 and (call_name(r[0].value) or '').endswith('RaggedArray') and \
-        u(kwarg(r[0].value, 'array') or (r[0].value.args[0] if r[0].value.args else None)) == 'new_data' and \
-        u(kwarg(r[0].value, 'lengths')) == 'self.lengths'
-    nd = [s for s in assigns_to(mo, 'new_data') if isinstance(s, ast.Assign)]
-    ok = ok and len(nd) == 1 and u(nd[0].value) == 'getattr(self._data, operator)(other)'
-    ck.check(ok, rule + '.rewrap', mod, r[0] if r else mo, CLS + '.map_operator', '%s ; %s' % (u(nd[0]) if nd else '?', u(r[0]) if r else '?'),
-             'element-wise result on the flat data, re-wrapped with the same row lengths in a NEW object',
-             'map_operator must return RaggedArray(array=<new flat result>, lengths=self.lengths)')
-    od = [s for s in assigns_to(mo, 'other') if isinstance(s, ast.Assign)]
-    ok = len(od) == 1 and u(od[0].value) == 'other._data'
-    ck.check(ok, rule + '.rewrap', mod, od[0] if od else mo, CLS + '.map_operator', u(od[0]) if od else 'other', 'ragged operand contributes its flat data', 'other must be replaced by other._data for ragged operands')
+    d2_map_operator(ck, mod, rule + '.rewrap')
     # every dunder operator delegates to map_operator with its own name
     cnt = 0
     for q, fn in pure:
         name = q.split('.', 1)[1]
         if name.startswith('__') and name.endswith('__') and name not in ('__len__', '__repr__', '__str__', '__getitem__', '__invert__', '__init__', '__setitem__'):
-            r = returns_of(fn)
-            ok = len(r) == 1 and u(r[0].value) == "self.map_operator('%s', other)" % name
             cnt += 1
-            ck.check(ok, rule + '.delegate', mod, r[0] if r else fn, q, u(r[0]) if r else name,
-                     'delegates to map_operator under its own name',
-                     "%s must return self.map_operator('%s', other): another operator name computes a different operation" % (name, name))
+            cx = Ctx(mod, fn)
+            r = [x for x in returns_of(fn) if x.value is not None]
+            msg = "%s must return self.map_operator('%s', other): another operator name computes a different operation" % (name, name)
+            if len(r) != 1 or len(cx.params) != 2:
+                ck.missing(rule + '.delegate', '%s: expected (self, other) and a single return' % q)
+                continue
+            E = cx.vexpand(r[0].value, r[0])
+            oth = cx.params[1]
+            if isinstance(E, ast.Call) and isinstance(E.func, ast.Attribute) and E.func.attr == 'map_operator':
+                a0 = arg_or_kw(E, 0, 'operator')
+                a1 = arg_or_kw(E, 1, 'other')
+                ok = isinstance(E.func.value, ast.Name) and E.func.value.id == cx.me and const_value(a0) == name and \
+                    isinstance(a1, ast.Name) and a1.id == oth and cx.param_only(a1) and len(E.args) + len(E.keywords) == 2
+                if ok:
+                    ck.ok(rule + '.delegate', mod, r[0], u(r[0]), 'delegates to map_operator under its own name')
+                else:
+                    parts = [x for x in (E.func.value, a0, a1) if x is not None]
+                    v = 'near' if len(parts) == 3 and all(_near_far(cx, x) == 'near' for x in parts) else 'far'
+                    ck.decide(v, rule + '.delegate', mod, r[0], q, u(r[0]), '', msg)
+            else:
+                ck.decide(_near_far(cx, E), rule + '.delegate', mod, r[0], q, u(r[0]), '', msg)
     ck.floor(rule + '.delegate', cnt, 23, 'operator methods')
-    inv = mod.func(CLS + '.__invert__')
-    r = returns_of(inv)
-    ok = len(r) == 1 and u(r[0].value) == 'RaggedArray(new_data, lengths=self.lengths)'
-    ck.check(ok, rule + '.rewrap', mod, r[0] if r else inv, CLS + '.__invert__', u(r[0]) if r else '?', 'new object with the same lengths', '__invert__ must wrap the inverted flat data with self.lengths')
+    d2_invert(ck, mod, rule + '.rewrap')
     return n
 
+
+# ---------------------------------------------------------------------------
+# D3 copy on construction
 
 def d3_copy(ck, mod):
     rule = 'C06.D3.copy-on-construction'
     fn = mod.func(CLS + '.__init__')
+    cx = Ctx(mod, fn)
+    F = CLS + '.__init__'
     d = param_default(fn, 'copy')
-    ck.check(const_value(d) is True, rule + '.default', mod, fn, CLS + '.__init__', 'copy=%s' % u(d), 'copy defaults to True', 'the constructor\'s copy flag must default to True')
+    ck.check(const_value(d) is True, rule + '.default', mod, fn, F, 'copy=%s' % u(d), 'copy defaults to True', 'the constructor\'s copy flag must default to True')
     # the flag is not reassigned
     re = [s for s in assigns_to(fn, 'copy')]
-    ck.check(not re, rule + '.default', mod, re[0] if re else fn, CLS + '.__init__', u(re[0]) if re else 'copy never reassigned', 'flag flows unmodified', 'the copy flag is overwritten inside the constructor')
+    ck.check(not re, rule + '.default', mod, re[0] if re else fn, F, u(re[0]) if re else 'copy never reassigned', 'flag flows unmodified', 'the copy flag is overwritten inside the constructor')
     n = 0
     for s in walk_local(fn):
-        if isinstance(s, ast.Assign) and u(s.targets[0]) == 'self._data':
+        if not (isinstance(s, ast.Assign) and len(s.targets) == 1):
+            continue
+        if cx.is_me_attr(s.targets[0], '_data'):
             n += 1
-            v = s.value
-            ok = False
+            v = cx.vexpand(s.value, s)
+            verdict = None
             if isinstance(v, ast.Call):
                 cn = call_name(v)
                 if cn == 'np.concatenate':
-                    ok = True
+                    verdict = 'match'
                 elif cn == 'np.array':
                     c = kwarg(v, 'copy')
                     inner_fresh = v.args and isinstance(v.args[0], (ast.ListComp, ast.List))
-                    ok = inner_fresh or (c is not None and u(c) == 'copy') or (c is None)
-            ck.check(ok, rule + '.data', mod, s, CLS + '.__init__', u(s)[:140],
-                     'flat data is built by a copying constructor honouring the copy flag',
-                     'self._data must be np.concatenate(...) or np.array(array, copy=copy): np.asarray / a bare '
-                     'reference keeps the caller\'s buffer although copy=True')
-        if isinstance(s, ast.Assign) and u(s.targets[0]) == 'self.lengths':
+                    if inner_fresh or c is None or const_value(c) is True or (isinstance(c, ast.Name) and c.id == 'copy' and cx.param_only(c)):
+                        verdict = 'match'
+                elif isinstance(v.func, ast.Attribute) and v.func.attr == 'copy' and not v.args and not v.keywords:
+                    verdict = 'match'          # canonical form of np.array(<name>)
+            if verdict is None:
+                verdict = _near_far(cx, v)
+            ck.decide(verdict, rule + '.data', mod, s, F, u(s)[:140],
+                      'flat data is built by a copying constructor honouring the copy flag',
+                      'self._data must be np.concatenate(...) or np.array(array, copy=copy): np.asarray / a bare '
+                      'reference keeps the caller\'s buffer although copy=True')
+        elif cx.is_me_attr(s.targets[0], 'lengths'):
             n += 1
-            v = s.value
-            ok = isinstance(v, ast.Call) and ((call_name(v) == 'np.array' and kwarg(v, 'copy') is None) or
-                                              (isinstance(v.func, ast.Attribute) and v.func.attr == 'copy' and not v.args))
-            ck.check(ok, rule + '.lengths', mod, s, CLS + '.__init__', u(s)[:140],
-                     'lengths are stored as a fresh array',
-                     'self.lengths must be a fresh np.array(...): np.asarray(lengths) keeps the caller\'s array, so '
-                     'a later in-place edit of it changes lengths/starts of this object (and of every result that '
-                     'shares it) while the rows keep the old partition')
+            v = cx.vexpand(s.value, s)
+            verdict = None
+            if isinstance(v, ast.Call):
+                c = kwarg(v, 'copy')
+                if call_name(v) == 'np.array' and (c is None or const_value(c) is True):
+                    verdict = 'match'
+                elif isinstance(v.func, ast.Attribute) and v.func.attr == 'copy' and not v.args and not v.keywords:
+                    verdict = 'match'
+            if verdict is None:
+                verdict = _near_far(cx, v)
+            ck.decide(verdict, rule + '.lengths', mod, s, F, u(s)[:140],
+                      'lengths are stored as a fresh array',
+                      'self.lengths must be a fresh np.array(...): np.asarray(lengths) keeps the caller\'s array, so '
+                      'a later in-place edit of it changes lengths/starts of this object (and of every result that '
+                      'shares it) while the rows keep the old partition')
     ck.floor(rule + '.data', n, 8, 'definitions of _data/lengths in the constructor')
     # _array is derived from self._data (never from the raw argument)
     for s in walk_local(fn):
-        if isinstance(s, ast.Assign) and u(s.targets[0]) == 'self._array' and not (isinstance(s.value, ast.List) and not s.value.elts):
-            ok = 'self._data' in u(s.value)
-            ck.check(ok, rule + '.rows', mod, s, CLS + '.__init__', u(s)[:140], 'row view is derived from the object\'s own flat data',
-                     'self._array must be built from self._data (view or partition), not from the caller\'s argument')
+        if isinstance(s, ast.Assign) and len(s.targets) == 1 and cx.is_me_attr(s.targets[0], '_array'):
+            v = cx.vexpand(s.value, s)
+            if isinstance(v, ast.List) and not v.elts:
+                continue
+            verdict = 'match' if _mentions_attr(cx, v, '_data') else _near_far(cx, v)
+            ck.decide(verdict, rule + '.rows', mod, s, F, u(s)[:140], 'row view is derived from the object\'s own flat data',
+                      'self._array must be built from self._data (view or partition), not from the caller\'s argument')
     # lengths never stored into anywhere in the class
     for q, f in mod.functions.items():
-        if q.startswith(CLS + '.'):
-            for s in walk_local(f):
-                if isinstance(s, (ast.Assign, ast.AugAssign)):
-                    tg = s.targets[0] if isinstance(s, ast.Assign) else s.target
-                    if isinstance(tg, ast.Subscript) and u(tg.value) == 'self.lengths':
+        if q.startswith(CLS + '.') and '<locals>' not in q:
+            cq = Ctx(mod, f)
+            for s in cq.fi.cfg.nodes:
+                for kind, what, stmt, _ in cq.events(s):
+                    if kind == 'store' and what == 'lengths':
                         ck.bad(rule + '.lengths', mod, s, q, u(s), 'self.lengths is shared between operands/results and must only be rebound, never stored into')
-                    if isinstance(s, ast.AugAssign) and u(tg) == 'self.lengths':
+                    if kind == 'rebind' and what == 'lengths' and isinstance(s, ast.AugAssign):
                         ck.bad(rule + '.lengths', mod, s, q, u(s), 'in-place update of self.lengths (shared between objects)')
 
 
 def check(ck):
+    del _REPO[:]
+    _REPO.append(ck.repo)
     mod = ck.repo.mod(RA)
     writers, pure = d1_writers(ck, mod)
     d2_pure(ck, mod, pure)
